@@ -168,7 +168,25 @@ def mutate(rng, s):
     return s[:i] + rng.choice(toks) + s[i + 1:]
 
 
+REPEAT_UNITS = ['<BLANKLINE>\n', '\n<BLANKLINE>', '\x1b[0m', '\x1b[31;1mred', '\x9b31m', "u'x' ", 'b"y" ', 'a  \n', 'a\t\n', '... ', 'x\r\n',
+                'line\n', '\x1b[2K', '  ', "'q' "]
+
+
 def gen_pair(rng):
+    if rng.random() < 0.08:
+        # MANY occurrences of the same construct in one text (counts no hand-written example reaches: a substitution
+        # that silently stops after N matches, a cache of N entries, ... only shows beyond N)
+        unit = rng.choice(REPEAT_UNITS)
+        n = rng.randint(9, 40)
+        base = ''.join(unit + (rng.choice(['', 'a', 'b', '1']) if rng.random() < 0.5 else '') for _ in range(n))
+        got = base
+        want = base
+        for _ in range(rng.randint(0, 2)):
+            want = mutate(rng, want)
+        if rng.random() < 0.5:
+            # what the text looks like once the construct is normalised away
+            got = got.replace('<BLANKLINE>', '').replace('\x1b[0m', '').replace('\x1b[31;1m', '').replace('\x9b31m', '').replace('\x1b[2K', '')
+        return got, want
     n = rng.randint(0, 8)
     base = ''.join(rng.choice(TOKENS + ['ab', 'x = 1', "{'k': u'v'}", 'b"raw"', '\n']) for _ in range(n))
     got = base
@@ -198,6 +216,35 @@ UNIT_OPS = [
 ]
 
 
+def stateful_reuse(ctx, corr):
+    """check_output must be a FUNCTION of (got, want, current flags): the same pairs are checked again and again on ONE
+    RuntimeState object whose flags are changed in place between the calls (as directives do during a run); a verdict
+    remembered from an earlier flag setting shows up as a disagreement with the model"""
+    from xdoctest import checker, directive
+    rng = ctx.sub_rng('stateful')
+    pool = [gen_pair(rng) for _ in range(40)] + [('a bb b', 'a...b'), ("'a'", 'a'), ('a  b', 'a b'), ('x\n\ny', 'x\n<BLANKLINE>\ny'), ('ab', 'a b')]
+    names = ['ELLIPSIS', 'NORMALIZE_WHITESPACE', 'IGNORE_WHITESPACE', 'NORMALIZE_REPR', 'DONT_ACCEPT_BLANKLINE']
+    rs = directive.RuntimeState()
+    seq = []
+    for _ in range(2500 if ctx.quick else 40000):
+        g, w = rng.choice(pool)
+        n = rng.randrange(32)
+        seq.append((n, g, w))
+    lines = ['check_output\t%s\t%s\t%s' % (''.join('1' if flagset(n)[k] else '0' for k in names), enc(g), enc(w)) for n, g, w in seq]
+    model = driver.run_lines(lines)
+    for (n, g, w), m in zip(seq, model):
+        for k, v in flagset(n).items():
+            rs[k] = v
+        try:
+            r = '1' if checker.check_output(g, w, rs) else '0'
+        except Exception as ex:
+            r = 'E:' + type(ex).__name__
+        corr.count('check_output:stateful')
+        if m != r:
+            corr.disagree('check_output:stateful', {'got': g, 'want': w, 'flags': flagset(n), 'note': 'one RuntimeState object, flags changed in place between calls'}, m, r)
+    corr.tag('stateful-reuse', len(seq))
+
+
 def correspondence(ctx, corr):
     import xdoctest  # noqa
     tables.check(corr, {'isspace', 'linebreak', 'word', 'csi'})
@@ -209,6 +256,7 @@ def correspondence(ctx, corr):
     corr.count('default_flags')
     if m != r:
         corr.disagree('default_flags', {}, m, r)
+    stateful_reuse(ctx, corr)
     # exhaustive token strings
     if ctx.quick:
         plans = [(TOKENS, 2, 32)]
